@@ -509,3 +509,26 @@ def gen_grid(rng, ver=None, depth=2, small=False):
                 row[n] = gen_value(rng, pre3, depth)
         g.append(row)
     return g
+
+
+def zone_sweep_grids(rng, per_grid=64):
+    """grids that together hold one date-time in EVERY mapped zone (cells and metadata), at an ordinary instant each -
+    so that a fault that touches only a few zone names cannot hide behind the luck of the seed"""
+    import datetime
+    import pytz
+    h = H()
+    zs = list(zones())
+    out = []
+    for i in range(0, len(zs), per_grid):
+        g = h.Grid(version=rng.choice(['2.0', '3.0']))
+        g.column['zone'] = {}
+        g.column['ts'] = {}
+        for zn in zs[i:i + per_grid]:
+            tz = h.zoneinfo.timezone(zn)
+            naive = datetime.datetime(rng.choice([1995, 2008, 2021, 2033]), rng.randint(1, 12), rng.randint(1, 28), rng.randint(3, 22), rng.randint(0, 59), rng.randint(0, 59),
+                                      rng.choice([0, 1, 999999]))
+            g.append({'zone': zn, 'ts': pytz.utc.localize(naive).astimezone(tz)})
+        first = h.zoneinfo.timezone(zs[i])
+        g.metadata['since'] = pytz.utc.localize(datetime.datetime(2020, 2, 29, 12, 0, 0)).astimezone(first)
+        out.append(g)
+    return out
